@@ -40,6 +40,8 @@ EXTRA = [
     # capitals that lower-casing leaves as they are (their lower case is longer, or does not exist): the mask still says U
     ['\u0130stanbul', 'istanbul', '\u0130brahim1453', '\u0130STANBUL', '\u211deal12', 'Istanbul', 'istanbul'],
 ]
+# the same terminal more than once in ONE password: a tally counts segments, not passwords (year, context string, walk, word, digits, symbols)
+EXTRA.append(['2010love2010', '1987-1987', '2010abc', 'x1999', '1999-2001', '#1fan#1', '<3x<3', '1qaz!1qaz', 'pass7pass', 'Pass7pass', '12ab12', '!!x!!', '2001'])
 COVERAGES = [0.6, 1.0, 0.0, 0.25, 0.5]
 
 
